@@ -481,6 +481,8 @@ double CostProgram::runCost(double t, double tg, int seg, const double *p, const
     // segment, so that the evaluation has accumulated something already
     if (throw_at_seg >= 0 && seg == throw_at_seg && t > 0)
         throw std::out_of_range("cost program: position outside the map");
+    if (throw_at_call >= 0 && ++call_count == throw_at_call)
+        throw std::out_of_range("cost program: position outside the map (n-th call)");
     if (rec)
     {
         RunSample rs;
